@@ -28,6 +28,7 @@ const (
 	apiMoveLeader    = "move-leader"    // CreateMoveLeaderOperator
 	apiReplaceLeader = "replace-leader" // CreateReplaceLeaderPeerOperator
 	apiLeaveJoint    = "leave-joint"    // CreateLeaveJointStateOperator
+	apiChain         = "chain"          // NewBuilder.{RemovePeer,AddPeer,PromoteLearner,DemoteVoter}*[.SetLeader].Build: the same target spelled peer by peer
 )
 
 // peerReq is one requested peer: role "v" (voter) or "l" (learner); ID is the id written into the
@@ -55,6 +56,8 @@ type request struct {
 	Old    uint64    `json:"old,omitempty"`   // move-peer / move-leader / replace-leader: store to vacate
 	Role   string    `json:"role,omitempty"`  // add-peer / move-peer / replace-leader: role of the new peer
 	NewID  uint64    `json:"new_id,omitempty"`
+	// chain: "remove-first" (removes, demotes, promotes, adds) or "add-first" (the reverse)
+	ChainOrder string `json:"chain_order,omitempty"`
 }
 
 // kase is one complete input.
@@ -111,7 +114,7 @@ func expectation(o *sim.Region, q *request) (e *expect, ok bool) {
 	ok = true
 	cur := originRoles(o)
 	switch q.API {
-	case apiBuilder, apiScatter:
+	case apiBuilder, apiScatter, apiChain:
 		e.roles = map[uint64]metapb.PeerRole{}
 		for _, p := range q.Target {
 			e.roles[p.Store] = metaRole(p.Role)
@@ -197,7 +200,7 @@ func expectation(o *sim.Region, q *request) (e *expect, ok bool) {
 	if e.leader != 0 {
 		if r, has := e.roles[e.leader]; !has || r == metapb.PeerRole_Learner || r == metapb.PeerRole_DemotingVoter {
 			e.leader = 0
-			if q.API != apiBuilder && q.API != apiScatter {
+			if q.API != apiBuilder && q.API != apiScatter && q.API != apiChain {
 				ok = false
 			}
 		}
@@ -298,6 +301,44 @@ func invoke(c opt.Cluster, origin *core.RegionInfo, q *request, between func()) 
 		op, err = operator.CreateReplaceLeaderPeerOperator(desc, c, origin, 0, q.Old, &metapb.Peer{Id: q.NewID, StoreId: q.Store, Role: metaRole(q.Role)}, &metapb.Peer{StoreId: q.Leader})
 	case apiLeaveJoint:
 		op, err = operator.CreateLeaveJointStateOperator(desc, c, origin)
+	case apiChain:
+		b := operator.NewBuilder(desc, c, origin)
+		var removes, demotes, promotes, adds []func()
+		tgt := map[uint64]peerReq{}
+		for _, p := range q.Target {
+			tgt[p.Store] = p
+		}
+		for _, o := range origin.GetPeers() {
+			store, isLearner := o.GetStoreId(), core.IsLearner(o)
+			t, kept := tgt[store]
+			switch {
+			case !kept:
+				removes = append(removes, func() { b = b.RemovePeer(store) })
+			case isLearner && t.Role == "v":
+				promotes = append(promotes, func() { b = b.PromoteLearner(store) })
+			case !isLearner && t.Role == "l":
+				demotes = append(demotes, func() { b = b.DemoteVoter(store) })
+			}
+		}
+		for _, p := range q.Target {
+			if origin.GetStorePeer(p.Store) == nil {
+				peer := &metapb.Peer{Id: p.ID, StoreId: p.Store, Role: metaRole(p.Role)}
+				adds = append(adds, func() { b = b.AddPeer(peer) })
+			}
+		}
+		groups := [][]func(){removes, demotes, promotes, adds}
+		if q.ChainOrder == "add-first" {
+			groups = [][]func(){adds, promotes, demotes, removes}
+		}
+		for _, g := range groups {
+			for _, f := range g {
+				f()
+			}
+		}
+		if q.Leader != 0 {
+			b = b.SetLeader(q.Leader)
+		}
+		op, err = b.Build(0)
 	default:
 		err = fmt.Errorf("harness: unknown api %q", q.API)
 	}
